@@ -24,6 +24,7 @@ pub fn gen_case(rc: &RunCtx, blob_heavy: bool, nasty: bool) -> WriterCase {
         max_points_knob_off: 25_000,
         custom_xml: false,
         small: false,
+        big_permille: 15,
     };
     let prog = gen_program(rc.run_seed, &cfg);
     let (wchunk, rchunk, sink) = draw_chunks(rc.run_seed);
@@ -78,6 +79,8 @@ pub fn run_points(case: &WriterCase, st: &mut RunStats, check_blobs: bool, check
             st.probe("multi_packet_cloud_knob_off", pc.records as usize > packet_capacity(&pc.proto));
         }
     }
+    st.probe("cloud_with_more_than_65535_points", w.exec.expected.file.pcs.iter().any(|p| p.records > 65_535));
+    st.probe("payload_longer_than_65535_bytes", w.exec.expected.blobs.iter().any(|b| b.len() > 65_535));
     st.probe("short_device_transfers", w.disk.short_transfers() > 0);
     st.absorb_ctx(&w.ctx);
     let mut dg = crate::rng::Digest::new();
@@ -100,7 +103,7 @@ impl Prop for C01 {
     fn meta(&self) -> Meta {
         Meta {
             level: "exploration",
-            rule: "seeded writer programs (0-5 items: point clouds with rule-conforming prototypes over single/double/integer/scaled types of width 0..64 bits incl. min=max and the full i64 range, extension attributes, blobs, images; a filler blob sweeps the section start over the residues modulo 1020) executed on E57Writer<SimDisk> under a seeded short-write schedule, packet capacity capped by the knob (1,2,3,7,8,9,50 points) in 63 of 64 runs and left at the library's ~64 KiB in the rest (multi-packet clouds up to 25k points); image reopened with E57Reader<SimDisk> under another short-read schedule; every cloud iterated raw. Oracle: scene model (count = records = points added, order, bit-identical values, identical prototype). Distinct = hash(call kinds, prototype types and widths, point-count class, blob length residues, section start offsets in page, knob, chunk kinds); non-trivial = more than one page and at least one point or payload".into(),
+            rule: "seeded writer programs (0-5 items: point clouds with rule-conforming prototypes over single/double/integer/scaled types of width 0..64 bits incl. min=max and the full i64 range, extension attributes, blobs, images; in 1.5 % of the runs one cloud of 3 000 - 70 000 points or a blob of 64 - 200 KiB; a filler blob sweeps the section start over the residues modulo 1020) executed on E57Writer<SimDisk> under a seeded short-write schedule, packet capacity capped by the knob (1,2,3,7,8,9,50 points) in 63 of 64 runs and left at the library's ~64 KiB in the rest (multi-packet clouds up to 25k points); image reopened with E57Reader<SimDisk> under another short-read schedule; every cloud iterated raw. Oracle: scene model (count = records = points added, order, bit-identical values, identical prototype). Distinct = hash(call kinds, prototype types and widths, point-count class, blob length residues, section start offsets in page, knob, chunk kinds); non-trivial = more than one page and at least one point or payload".into(),
             assumptions: vec![
                 "prototypes follow the writer's documented rules and have at least one record of non-zero width".into(),
                 "metadata strings avoid nothing; numbers in metadata are finite (metadata itself is C04, n/a)".into(),
@@ -122,7 +125,7 @@ impl Prop for C01 {
     }
     fn plan(&self, tier: Tier) -> Plan {
         match tier {
-            Tier::Quick => Plan { runs: 3072, time_box_s: None, isolation: Isolation::Threads },
+            Tier::Quick => Plan { runs: 12288, time_box_s: None, isolation: Isolation::Threads },
             Tier::Thorough => Plan { runs: 400_000, time_box_s: Some(480), isolation: Isolation::Threads },
         }
     }
